@@ -261,3 +261,114 @@ trait Pipe: Sized {
     }
 }
 impl<T> Pipe for T {}
+
+
+/// canonical dump of a `Metadata` over a known universe of topics and node ids
+fn dump(m: &Metadata, topics: &[String]) -> String {
+    let mut ts: Vec<(String, String)> = topics
+        .iter()
+        .filter_map(|t| m.get_topic_state(t).map(|st| (hex(t.as_bytes()), fmt_state(Some(&st)))))
+        .collect();
+    ts.sort();
+    ts.dedup();
+    let mut ns = m.all_node_addrs();
+    ns.sort();
+    format!(
+        "topics{{{}}} nodes{{{}}}",
+        ts.iter().map(|(n, s)| format!("{}={}", n, s)).collect::<Vec<_>>().join(";"),
+        ns.iter().map(|(i, a)| format!("{}:{}", i, hex(a.as_bytes()))).collect::<Vec<_>>().join(",")
+    )
+}
+
+pub fn c20(seed: u64, thorough: bool, out: &mut Out) {
+    let topics: Vec<String> = vec!["a".into(), "b".into(), "".into(), "é_s_1".into(), "long-topic-name-with-more-than-eight-bytes".into()];
+    let mut rng = Rng(seed ^ 0xC20);
+    let nseq = if thorough { 6000 } else { 600 };
+    let mut nontrivial = 0u64;
+    let gen_cmd = |rng: &mut Rng, topics: &[String]| -> Cmd {
+        let t = topics[rng.below(topics.len() as u64) as usize].clone();
+        match rng.below(8) {
+            0 | 1 => Cmd::Create(t, 1 + rng.below(3)),
+            2..=5 => Cmd::Roll(t, 1 + rng.below(3), if rng.below(5) == 0 { 1u64 << rng.below(62) } else { rng.below(1000) }),
+            6 => Cmd::Upsert(rng.below(4), format!("h{}:é{}", rng.below(3), rng.below(9000))),
+            _ => Cmd::Bytes((0..rng.below(12)).map(|_| rng.next() as u8).collect()),
+        }
+    };
+    for s in 0..nseq {
+        let m = Metadata::new();
+        out.ops.push("meta reset".into());
+        out.imp.push("ok".into());
+        let n1 = rng.below(40) as usize;
+        let mut rolled = false;
+        for _ in 0..n1 {
+            let c = gen_cmd(&mut rng, &topics);
+            let rep = reply(m.apply(&c.bytes()));
+            rolled |= rep == "ROLLED";
+            out.ops.push(c.line());
+            out.imp.push(rep);
+        }
+        // snapshot at this point, restore into a fresh state machine
+        let snap = m.snapshot();
+        let fresh = Metadata::new();
+        let ok = fresh.restore(&snap).is_ok();
+        let same = ok && dump(&fresh, &topics) == dump(&m, &topics);
+        if !same {
+            out.violations.push(format!("sequence {}: restore(snapshot) differs from the original: ok={} orig={} restored={}", s, ok, dump(&m, &topics), dump(&fresh, &topics)));
+        }
+        out.ops.push(format!("meta restorecheck {}", hex(&snap)));
+        out.imp.push((if same { "same" } else { "different" }).into());
+        out.ops.push("meta selfcheck".into());
+        out.imp.push("same".into());
+        // the same subsequent commands on both replicas
+        let n2 = rng.below(20) as usize;
+        for _ in 0..n2 {
+            let c = gen_cmd(&mut rng, &topics);
+            let b = c.bytes();
+            let r1 = reply(m.apply(&b));
+            let r2 = reply(fresh.apply(&b));
+            if r1 != r2 {
+                out.violations.push(format!("sequence {}: replicas answer differently to {}: {} vs {}", s, c.line(), r1, r2));
+            }
+            out.ops.push(c.line());
+            out.imp.push(r2);
+        }
+        if dump(&fresh, &topics) != dump(&m, &topics) {
+            out.violations.push(format!("sequence {}: replicas diverged after the same commands", s));
+        }
+        out.ops.push("meta dump".into());
+        out.imp.push(dump(&fresh, &topics));
+        // corrupted snapshots are rejected and leave the state alone
+        if !snap.is_empty() {
+            let mut bad = snap.clone();
+            let cut = rng.below(bad.len() as u64) as usize;
+            bad.truncate(cut);
+            let before = dump(&fresh, &topics);
+            let r = fresh.restore(&bad);
+            if r.is_err() && dump(&fresh, &topics) != before {
+                out.violations.push(format!("sequence {}: failed restore changed the state", s));
+            }
+            if r.is_ok() {
+                // a truncated encoding that still decodes: re-synchronise the model
+                out.ops.push("meta reset".into());
+                out.imp.push("ok".into());
+            }
+        }
+        // the Raft adapter path: install what build_snapshot produces
+        let payload = bincode::serialize(&std::collections::BTreeMap::<String, String>::new()).unwrap();
+        let receiver = Metadata::new();
+        let decoded: std::collections::BTreeMap<String, String> = bincode::deserialize(&payload).unwrap();
+        let reenc = bincode::serialize(&decoded).unwrap();
+        let inst = receiver.restore(&reenc);
+        out.ops.push("meta adapter".into());
+        out.imp.push((if inst.is_ok() { "install:ok" } else { "install:err" }).into());
+        if dump(&receiver, &topics) != dump(&m, &topics) {
+            out.violations.push(format!("KNOWN adapterSnapshotsEmptyMap sequence {}: receiver after adapter install {} != sender {}", s, dump(&receiver, &topics), dump(&m, &topics)));
+        }
+        if rolled { nontrivial += 1; }
+        if s == 2 {
+            out.samples.push(format!("{} commands, snapshot {} bytes, restore, {} more commands on both replicas", n1, snap.len(), n2));
+        }
+    }
+    out.stats.push(("sequences".into(), nseq));
+    out.stats.push(("nontrivial_cases".into(), nontrivial));
+}
